@@ -10,7 +10,7 @@
    statistics. *)
 From Coq Require Import List Bool String ZArith.
 From FM Require Import Base.Result Base.AstOp Model.Ast Model.FM Model.PFM Format.Xml Format.Ref
-     Proofs.FideFacts Proofs.RefFacts Proofs.C09Facts Format.Json Format.Glencoe Format.Afm.
+     Proofs.FideFacts Proofs.RefFacts Proofs.C09Facts Proofs.AfmVariant Format.Json Format.Glencoe Format.Afm.
 Import ListNotations.
 Local Open Scope list_scope.
 
@@ -97,3 +97,8 @@ Proof.
   - split; [vm_compute; eexists; split; reflexivity|]. vm_compute. reflexivity.
 Qed.
 Print Assumptions C09_nonvacuous.
+
+(* AFM, whole document: redundant parentheses in any expression of any constraint *)
+Theorem C09_afm_document_parentheses : forall d, afm_read_cst (afm_map_exprs strip_parens d) = afm_read_cst d.
+Proof. exact afm_read_doc_parens. Qed.
+Print Assumptions C09_afm_document_parentheses.
